@@ -568,6 +568,17 @@ fn gen_scenario(rng: &mut Rng) -> Scenario {
             _ => HostProg::Client { server: 0, rounds: rng.range(1, 4) as u32, msg_len: rng.range(1, 48) as u32, timeout_ms: rng.range(20, 400) },
         });
     }
+    // the server is not always the host that was registered first: registered last, it is the later end of every
+    // link it has, and the requests of several clients reach it over links that were set up in one registration
+    if nh >= 3 && matches!(hosts[0], HostProg::Server) && rng.chance(1, 2) {
+        let k = rng.usize(1, nh - 1);
+        hosts.swap(0, k);
+        for h in hosts.iter_mut() {
+            if let HostProg::Client { server, .. } = h {
+                *server = k;
+            }
+        }
+    }
     let steps = rng.range(40, 300) as u32;
     let mut script = Vec::new();
     for _ in 0..rng.below(5) {
@@ -858,9 +869,13 @@ impl Property for C01 {
         let mut compared = 0u64;
         for child in 0..2 {
             let o = std::process::Command::new(&exe).arg("c01-child").arg(seed.to_string()).arg(n.to_string()).output();
-            let Ok(o) = o else {
-                out.push((serde_json::json!({"child": child}), Violation::new("ChildFailed", "could not spawn the child process")));
-                continue;
+            let o = match o {
+                Ok(o) => o,
+                Err(e) => {
+                    // says nothing about the subject (the executable was replaced or removed while the check ran)
+                    eprintln!("harness error: could not spawn the child process {}: {e}", exe.display());
+                    std::process::exit(2);
+                }
             };
             let text = String::from_utf8_lossy(&o.stdout);
             let theirs: Vec<(u64, u64)> = text
